@@ -16,11 +16,15 @@ Range(s) == { s[i] : i \in DOMAIN s }
 
 Names == {"", "a.example.com", "b.example.com", "x.wild.test", "deep.x.wild.test"}
 Clients == [sni : Names,
-            alpn : {<<>>, <<"h2">>, <<"h2", "http/1.1">>, <<"acme-tls/1">>},
+            \* offers in client preference order (not sorted)
+            alpn : {<<>>, <<"h2">>, <<"h2", "http/1.1">>, <<"acme-tls/1">>, <<"http/1.1", "h2">>, <<"h2", "http/1.1", "acme-tls/1">>},
             vers : {"12", "13", "12-13", "10-12"},
             curves : {"default", "x25519", "p256-p384"},
             suites : {"default", "one"},
-            resume : BOOLEAN]
+            resume : BOOLEAN,
+            \* supported_versions extension: "sent" (every current client), "absent" (a TLS 1.2-or-earlier client that
+            \* predates the extension: the versions then follow from legacy_version; only with vers 12 / 10-12)
+            sv : {"sent", "absent"}]
 MatcherCfgs == [sni : {<<>>, <<"a.example.com">>, <<"*.wild.test">>, <<"b.example.com", "*.example.com">>},
                 alpn : {<<>>, <<"h2">>, <<"http/1.1", "acme-tls/1">>}]
 
